@@ -67,7 +67,9 @@ func ParsePublicURLWithScheme(input string, allowReserved bool, allowedSchemes .
 	if len(allowedSchemes) > 0 && !slices.Contains(allowedSchemes, parsed.Scheme) {
 		return nil, fmt.Errorf("scheme must be %s", strings.Join(allowedSchemes, " or "))
 	}
-	if net.ParseIP(parsed.Hostname()) != nil && !allowReserved {
+	// an IPv6 literal can carry a zone identifier ([fe80::1%25eth0]), which net.ParseIP does not accept
+	ipCandidate, _, _ := strings.Cut(parsed.Hostname(), "%")
+	if net.ParseIP(ipCandidate) != nil && !allowReserved {
 		return nil, errors.New("hostname is IP")
 	}
 	if !allowReserved && isReserved(parsed) {
